@@ -73,13 +73,10 @@ def h_parse(L, parts):
         got = err_name(rP.fields[0])
         exp['typed'] = {'err': got}
         L.expect_native(req, exp)
+        # C08 only says "refused"; which error is C05's business
         if ty is None:
-            if got != 'UnsupportedType':
-                L.fail('unknown well-formed type is refused with %s instead of UnsupportedType' % got)
             return 'unknown-type'
         if ty == 'maven' and aS['ns'] is None:
-            if got != 'MissingRequiredField(Namespace)':
-                L.fail('maven without namespace is refused with %s' % got)
             return 'maven-no-namespace'
         L.fail('typed parser refuses (%s) a string of type %s that the type-agnostic parser accepts' % (got, ty))
         return 'typed-rejected'
@@ -131,14 +128,8 @@ def h_build(L, ty, n, with_ns):
         got = err_name(r.fields[0])
         L.expect_native(req, {'err': got})
         if n == 0:
-            if ty == 'maven' and not with_ns:
-                return 'rejected'
-            if got != 'Parse(MissingRequiredField(Name))':
-                L.fail('empty name refused with %s' % got)
             return 'rejected'
         if ty == 'maven' and not with_ns:
-            if got != 'MissingRequiredField(Namespace)':
-                L.fail('maven without namespace is refused with %s' % got)
             return 'maven-no-namespace'
         L.fail('builder refuses (%s) a non-empty %s name' % (got, ty))
         return 'rejected'
@@ -199,7 +190,7 @@ def confirm(v, resp):
         has_ns = any(s[0] == 'with_namespace' for s in req['steps'])
         if 'err' in resp:
             if ty == 'maven' and not has_ns:
-                return None if resp['err'] == 'MissingRequiredField(Namespace)' or name == b'' else 'maven without namespace refused with %s' % resp['err']
+                return None
             return None if name == b'' else 'builder refuses %r for %s with %s' % (name, ty, resp['err'])
         if ty == 'maven' and not has_ns:
             return 'maven PURL without namespace built'
@@ -211,9 +202,9 @@ def confirm(v, resp):
         return None
     ty = hx(g['ok']['type']).decode()
     if ty not in NAMES:
-        return None if t.get('err') == 'UnsupportedType' else 'unknown type %s: typed parser answers %r' % (ty, t.get('err', 'Ok'))
+        return None if 'err' in t else 'unknown type %s is accepted by the typed parser' % ty
     if ty == 'maven' and g['ok']['ns'] is None:
-        return None if t.get('err') == 'MissingRequiredField(Namespace)' else 'maven without namespace: typed parser answers %r' % t.get('err', 'Ok')
+        return None if 'err' in t else 'maven without namespace is accepted by the typed parser'
     if 'ok' not in t:
         return 'typed parser refuses (%s) what the type-agnostic parser accepts' % t.get('err')
     for f in ('ns', 'ver', 'sub', 'quals'):
